@@ -1,4 +1,5 @@
 import Cuckoo.Props.C02
+import Cuckoo.Proofs.Stats
 /-!
 # C17 — functors are invoked exactly when documented, with the right context
 
@@ -15,13 +16,40 @@ theorem fn_called_iff_present (c : Cfg κ) (canErase : Bool) (t : Table κ ν) (
     (h : Inv c t) (hr : Rel c t m) :
     (t.fnOp c canErase k fn).2.calls = (match m.lookup k with | some v => [⟨none, v⟩] | none => []) ∧
     (∀ b, (t.fnOp c canErase k fn).2.res = .ok b → b = (m.lookup k).isSome) := by
-  sorry
+  have h0 := (C02.fnOp_refines c canErase t m k fn h hr).2
+  cases hk : m.lookup k with
+  | none =>
+    rw [hk] at h0
+    refine ⟨h0.2.1, ?_⟩
+    intro b hb
+    rw [h0.1] at hb
+    cases hb
+    rfl
+  | some v =>
+    rw [hk] at h0
+    refine ⟨h0.1, ?_⟩
+    intro b hb
+    have h1 := h0.2
+    cases hf : fn v with
+    | ret v' er =>
+      rw [hf] at h1
+      rw [h1.1] at hb
+      cases hb
+      rfl
+    | throw v' =>
+      rw [hf] at h1
+      rw [h1.1] at hb
+      cases hb
 
 /-- erase_fn erases iff the functor returns true; update_fn never erases -/
 theorem erased_iff_true (c : Cfg κ) (canErase : Bool) (t : Table κ ν) (m : AMap κ ν) (k : κ) (fn : ν → FnOut ν) (v v' : ν)
     (er : Bool) (h : Inv c t) (hr : Rel c t m) (hk : m.lookup k = some v) (hf : fn v = .ret v' er) :
     Rel c (t.fnOp c canErase k fn).1 (if canErase && er then m.erase k else m.set k v') := by
-  sorry
+  have h0 := (C02.fnOp_refines c canErase t m k fn h hr).2
+  rw [hk] at h0
+  have h1 := h0.2
+  rw [hf] at h1
+  exact h1.2
 
 /-- uprase_fn / upsert: present key → exactly one call with ALREADY_EXISTED (context passed only to functors that take
 one) and the stored value; absent key → exactly one call with NEWLY_INSERTED and the inserted value iff the functor
@@ -34,14 +62,52 @@ theorem uprase_call_contract (c : Cfg κ) (locked : Bool) (t : Table κ ν) (m :
        | some old => [⟨if ctxAware then some .alreadyExisted else none, old⟩]
        | none => if ctxAware then [⟨some .newlyInserted, v⟩] else []) ∧
     (∀ b, (t.uprase c locked k v ctxAware mayErase fn).2.1.res = .ok b → b = (m.lookup k).isNone) := by
-  sorry
+  obtain ⟨_, _, h0⟩ := C02.uprase_refines c locked t m k v ctxAware mayErase fn h hr hl
+  rcases h0 with ⟨e, he, hre, _, _⟩ | ⟨hres, hcalls, _⟩
+  · have := hok e he
+    subst this
+    rcases hre with h | h | h | h <;> cases h
+  · rw [hres, hcalls]
+    unfold C02.upraseSpec
+    cases hk : m.lookup k with
+    | some old =>
+      dsimp only
+      cases fn .alreadyExisted old <;> refine ⟨rfl, ?_⟩ <;> intro b hb <;> cases hb <;> rfl
+    | none =>
+      dsimp only
+      cases ctxAware
+      · refine ⟨rfl, ?_⟩
+        intro b hb
+        cases hb
+        rfl
+      · simp only [if_true]
+        cases fn .newlyInserted v <;> refine ⟨rfl, ?_⟩ <;> intro b hb <;> cases hb <;> rfl
 
 /-- a failed expansion invokes nothing -/
 theorem no_call_on_failed_insert (c : Cfg κ) (locked : Bool) (t : Table κ ν) (m : AMap κ ν) (k : κ) (v : ν)
     (ctxAware mayErase : Bool) (fn : Ctx → ν → FnOut ν) (h : Inv c t) (hr : Rel c t m) (hl : locked = true → AllMig t)
     (e : Err) (he : (t.uprase c locked k v ctxAware mayErase fn).2.1.res = .err e) (hne : e ≠ .fnThrow) :
     (t.uprase c locked k v ctxAware mayErase fn).2.1.calls = [] ∧ Rel c (t.uprase c locked k v ctxAware mayErase fn).1 m := by
-  sorry
+  obtain ⟨_, _, h0⟩ := C02.uprase_refines c locked t m k v ctxAware mayErase fn h hr hl
+  rcases h0 with ⟨e', _, _, hc, hrel⟩ | ⟨hres, _, _⟩
+  · exact ⟨hc, hrel⟩
+  · exfalso
+    rw [hres] at he
+    unfold C02.upraseSpec at he
+    cases hk : m.lookup k with
+    | some old =>
+      rw [hk] at he
+      dsimp only at he
+      cases hf : fn .alreadyExisted old <;> rw [hf] at he <;> cases he
+      exact hne rfl
+    | none =>
+      rw [hk] at he
+      dsimp only at he
+      cases ctxAware
+      · cases he
+      · simp only [if_true] at he
+        cases hf : fn .newlyInserted v <;> rw [hf] at he <;> cases he
+        exact hne rfl
 
 /-- the wrappers are the documented abbreviations: their functors -/
 def containsFn : ν → FnOut ν := fun v => .ret v false
@@ -53,29 +119,90 @@ def assignFn (x : ν) : Ctx → ν → FnOut ν := fun _ _ => .ret x false
 /-- `contains`/`find` = find_fn with a functor that changes nothing -/
 theorem contains_spec (c : Cfg κ) (t : Table κ ν) (m : AMap κ ν) (k : κ) (h : Inv c t) (hr : Rel c t m) :
     (t.fnOp c false k containsFn).2.res = .ok (m.lookup k).isSome ∧ Rel c (t.fnOp c false k containsFn).1 m := by
-  sorry
+  have h0 := (C02.fnOp_refines c false t m k containsFn h hr).2
+  cases hk : m.lookup k with
+  | none =>
+    rw [hk] at h0
+    exact ⟨h0.1, h0.2.2⟩
+  | some v =>
+    rw [hk] at h0
+    have h1 := h0.2
+    simp only [containsFn, Bool.false_and, Bool.false_eq_true, if_false] at h1
+    exact ⟨h1.1, Rel_set_same hr.nodup hk h1.2⟩
 
 /-- `update(k, x)` = update_fn assigning `x` -/
 theorem update_spec (c : Cfg κ) (t : Table κ ν) (m : AMap κ ν) (k : κ) (x : ν) (h : Inv c t) (hr : Rel c t m) :
     (t.fnOp c false k (updateFn x)).2.res = .ok (m.lookup k).isSome ∧ Rel c (t.fnOp c false k (updateFn x)).1 (m.set k x) := by
-  sorry
+  have h0 := (C02.fnOp_refines c false t m k (updateFn x) h hr).2
+  cases hk : m.lookup k with
+  | none =>
+    rw [hk] at h0
+    rw [AMap.set_of_lookup_none m k x hk]
+    exact ⟨h0.1, h0.2.2⟩
+  | some v =>
+    rw [hk] at h0
+    have h1 := h0.2
+    simp only [updateFn, Bool.false_and, Bool.false_eq_true, if_false] at h1
+    exact ⟨h1.1, h1.2⟩
 
 /-- `erase(k)` = erase_fn returning true -/
 theorem erase_spec (c : Cfg κ) (t : Table κ ν) (m : AMap κ ν) (k : κ) (h : Inv c t) (hr : Rel c t m) :
     (t.fnOp c true k eraseFn).2.res = .ok (m.lookup k).isSome ∧ Rel c (t.fnOp c true k eraseFn).1 (m.erase k) := by
-  sorry
+  have h0 := (C02.fnOp_refines c true t m k eraseFn h hr).2
+  cases hk : m.lookup k with
+  | none =>
+    rw [hk] at h0
+    rw [AMap.erase_of_lookup_none m k hk]
+    exact ⟨h0.1, h0.2.2⟩
+  | some v =>
+    rw [hk] at h0
+    have h1 := h0.2
+    simp only [eraseFn, Bool.and_self, if_true] at h1
+    exact ⟨h1.1, h1.2⟩
 
 /-- `insert(k, v)` = upsert with a one-argument no-op: inserts iff absent, never touches a present value -/
 theorem insert_spec (c : Cfg κ) (t : Table κ ν) (m : AMap κ ν) (k : κ) (v : ν) (h : Inv c t) (hr : Rel c t m)
     (b : Bool) (hb : (t.uprase c false k v false false insertFn).2.1.res = .ok b) :
     b = (m.lookup k).isNone ∧ Rel c (t.uprase c false k v false false insertFn).1 (if (m.lookup k).isNone then m.add k v else m) := by
-  sorry
+  obtain ⟨_, _, h0⟩ := C02.uprase_refines c false t m k v false false insertFn h hr (by intro h; cases h)
+  rcases h0 with ⟨e, he, _, _, _⟩ | ⟨hres, _, hrel⟩
+  · rw [he] at hb
+    cases hb
+  · rw [hres] at hb
+    unfold C02.upraseSpec at hb hrel
+    cases hk : m.lookup k with
+    | some old =>
+      rw [hk] at hb hrel
+      simp only [insertFn, Bool.false_and, Bool.false_eq_true, if_false] at hb hrel
+      cases hb
+      exact ⟨rfl, Rel_set_same hr.nodup hk hrel⟩
+    | none =>
+      rw [hk] at hb hrel
+      simp only [Bool.false_eq_true, if_false] at hb hrel
+      cases hb
+      exact ⟨rfl, hrel⟩
 
 /-- `insert_or_assign(k, v)` = upsert with a one-argument assignment -/
 theorem insert_or_assign_spec (c : Cfg κ) (t : Table κ ν) (m : AMap κ ν) (k : κ) (v : ν) (h : Inv c t) (hr : Rel c t m)
     (b : Bool) (hb : (t.uprase c false k v false false (assignFn v)).2.1.res = .ok b) :
     b = (m.lookup k).isNone ∧
     Rel c (t.uprase c false k v false false (assignFn v)).1 (if (m.lookup k).isNone then m.add k v else m.set k v) := by
-  sorry
+  obtain ⟨_, _, h0⟩ := C02.uprase_refines c false t m k v false false (assignFn v) h hr (by intro h; cases h)
+  rcases h0 with ⟨e, he, _, _, _⟩ | ⟨hres, _, hrel⟩
+  · rw [he] at hb
+    cases hb
+  · rw [hres] at hb
+    unfold C02.upraseSpec at hb hrel
+    cases hk : m.lookup k with
+    | some old =>
+      rw [hk] at hb hrel
+      simp only [assignFn, Bool.false_and, Bool.false_eq_true, if_false] at hb hrel
+      cases hb
+      exact ⟨rfl, hrel⟩
+    | none =>
+      rw [hk] at hb hrel
+      simp only [Bool.false_eq_true, if_false] at hb hrel
+      cases hb
+      exact ⟨rfl, hrel⟩
 
 end Cuckoo.Props.C17
